@@ -565,6 +565,7 @@ func (cb *chunkBuilder) reset() {
 }
 
 func (cb *chunkBuilder) add(cols map[string]*btapb.ColumnFamily, r *btpb.Row) bool {
+	before := len(cb.chunks)
 	scrubRow(r, cols)
 	newRow := true
 	for _, fam := range r.Families {
@@ -604,7 +605,8 @@ func (cb *chunkBuilder) add(cols map[string]*btapb.ColumnFamily, r *btpb.Row) bo
 	if len(cb.chunks) > 0 {
 		cb.chunks[len(cb.chunks)-1].RowStatus = &btpb.ReadRowsResponse_CellChunk_CommitRow{CommitRow: true}
 	}
-	return true
+	// Only a row that produced at least one chunk counts against rows_limit.
+	return len(cb.chunks) > before
 }
 
 // filterRow modifies a row with the given filter. Returns true if at least one cell from the row matches,
